@@ -97,7 +97,7 @@ class HostKeys(MutableMapping):
                     continue
                 if entry is not None:
                     for h in list(entry.hostnames):
-                        if self.check(h, entry.key):
+                        if self._is_listed(h, entry.key):
                             entry.hostnames.remove(h)
                     if len(entry.hostnames):
                         self._entries.append(entry)
@@ -221,6 +221,21 @@ class HostKeys(MutableMapping):
         if host_key is None:
             return False
         return host_key.asbytes() == key.asbytes()
+
+    def _is_listed(self, hostname, key):
+        """
+        Return True if some entry matching ``hostname`` already holds ``key``
+        (whether or not an earlier key of the same type shadows it).
+        """
+        for e in self._entries:
+            if (
+                e.key is not None
+                and self._hostname_matches(hostname, e)
+                and e.key.get_name() == key.get_name()
+                and e.key.asbytes() == key.asbytes()
+            ):
+                return True
+        return False
 
     def clear(self):
         """
